@@ -36,7 +36,48 @@ def floors(tier):
             "graph_audits": 200}
 
 
+def chain_targets():
+    """name -> (builder of the collection to cut, list of tail functions): cuts placed directly on values the random programs never
+    produce (partition selections, head / tail / loc, sorted set_index, file sources with selections), followed by short tails"""
+    import numpy as np
+    import pandas as pd
+
+    import dask_expr as dx
+
+    n = 48
+    pdf = pd.DataFrame({"a": np.arange(n) % 5, "b": np.arange(n) * 1.5, "c": (np.arange(n) * 7) % n, "rid": np.arange(n)}, index=pd.Index(np.arange(n) + 100, name="ix"))
+    d = lambda k=6: dx.from_pandas(pdf, npartitions=k)  # noqa: E731
+    srcs = {
+        "partitions_list": lambda: d().partitions[[1, 4]],
+        "partitions_one": lambda: d().partitions[2],
+        "partitions_proj": lambda: d()[["a", "b"]].partitions[[0, 3, 5]],
+        "partitions_reversed_same_len": lambda: d(4).partitions[[3, 2, 1, 0]],
+        "partitions_elemwise": lambda: (d()[["a", "b"]] + 1).partitions[[2, 3]],
+        "head_k2": lambda: d().head(10, npartitions=2, compute=False),
+        "tail": lambda: d().tail(5, compute=False),
+        "loc_slice": lambda: d().loc[110:130],
+        "set_index_sorted": lambda: d().set_index("rid", sorted=True),
+        "set_index_sorted_parts": lambda: d().set_index("rid", sorted=True).partitions[[1, 2]],
+        "repartition_div": lambda: d().repartition(divisions=[100, 120, 147]),
+        "from_map_parts": lambda: dx.from_map(lambda i: pdf.iloc[i * 12:(i + 1) * 12], range(4), divisions=(100, 112, 124, 136, 147)).partitions[[1, 3]],
+        "series_parts": lambda: d().b.partitions[[0, 5]],
+        "index_parts": lambda: d().index.partitions[[1, 2]].to_series(),
+        "filter_parts": lambda: d()[d().a > 1].partitions[[0, 2]],
+    }
+    tails = {
+        "identity": lambda v: v,
+        "add": lambda v: v + 1 if v.ndim == 1 or "a" not in v.columns else v.assign(z=v.a + 1),
+        "sum": lambda v: (v.sum() if v.ndim == 1 else v[[c for c in v.columns if c in ("a", "b", "c", "rid")]].sum()).to_frame("s"),
+        "filter": lambda v: v[v > v.min()] if v.ndim == 1 else v[v[v.columns[0]] > 0],
+    }
+    return srcs, tails
+
+
 def cases(tier, seed):
+    srcs, tails = chain_targets()
+    for sname in srcs:
+        for tname in tails:
+            yield {"chain": [sname, tname]}
     profiles = ["default", "blockwise", "projection", "filter", "structure", "default"]
     for i in range(CONFIG[tier]["programs"]):
         yield {"gen": [seed, i], "profile": profiles[i % len(profiles)]}
@@ -97,7 +138,77 @@ def _weaker_like_logical(cd, logical_divs):
     return _all_unknown(cd) and _all_unknown(logical_divs)
 
 
+def run_chain(case):
+    """cut placed directly on a targeted value; the continuation on the cut must give the uncut result, schema and divisions"""
+    from vmon.checks.c14 import _schema_diff
+
+    srcs, tails = chain_targets()
+    sname, tname = case["chain"]
+    counters, sets = {"chain_cases": 1}, {"cut_node_kinds": []}
+    rec = {"status": "ok", "counters": counters, "sets": sets, "nt": []}
+    viol = None
+    try:
+        v = srcs[sname]()
+        q = tails[tname](v)
+        with M.Guard():
+            o = q.optimize()
+            ref = concat_parts(exec_ref(o.expr))
+        ref_meta, ref_divs, logical_divs = o._meta, _divs(o.expr), _divs(q.expr)
+    except Exception:
+        return {"status": "undecided", "counters": {"uncut_raises": 1}}
+    for kind in KINDS:
+        try:
+            c = cut(srcs[sname](), kind)
+        except Exception as ex:
+            if kind == "legacy" or kind == "delayed":
+                counters["cut_refused"] = counters.get("cut_refused", 0) + 1  # legacy collections need sorted divisions
+                continue
+            viol = dict(progcase.exc_info(ex), oracle="cut_runs", cut=[sname, kind])
+            break
+        try:
+            qc = tails[tname](c)
+            oc = qc.optimize()
+            with M.Guard():
+                got = concat_parts(exec_ref(oc.expr))
+        except Exception as ex:
+            viol = dict(progcase.exc_info(ex), oracle="cut_runs", cut=[sname, kind])
+            break
+        counters["cuts_compared"] = counters.get("cuts_compared", 0) + 1
+        counters[f"cut_{kind}"] = counters.get(f"cut_{kind}", 0) + 1
+        rec["nt"].append(f"chain:{sname}:{tname}:{kind}")
+        d = compare(got, ref, order=True, index=True, dtypes=True)
+        if d:
+            viol = dict(d, oracle="cut_vs_uncut", cut=[sname, kind])
+            break
+        sd = _schema_diff(oc._meta, ref_meta)
+        if sd:
+            viol = dict(sd, oracle="cut_schema", cut=[sname, kind])
+            break
+        cd = _divs(oc.expr)
+        if cd != ref_divs and not (_all_unknown(cd) and (_all_unknown(ref_divs) or _all_unknown(logical_divs))) and not (kind == "legacy" and not oc.known_divisions):
+            viol = {"oracle": "cut_divisions", "symptom": "divisions", "got": repr(cd)[:200], "exp": repr(ref_divs)[:200], "cut": [sname, kind]}
+            break
+        # the cut value itself reports what the uncut value reports
+        try:
+            cv, uv = cut(srcs[sname](), kind), srcs[sname]()
+            if kind == "persist" and (_divs(cv.expr) != _divs(uv.optimize().expr) and _divs(cv.expr) != _divs(uv.expr) or cv.npartitions != len(_divs(cv.expr)) - 1):
+                viol = {"oracle": "cut_divisions", "symptom": "divisions", "got": repr(_divs(cv.expr))[:200], "exp": repr(_divs(uv.expr))[:200], "cut": [sname, kind], "at": "cut-value"}
+                break
+        except Exception as ex:
+            viol = dict(progcase.exc_info(ex), oracle="cut_runs", cut=[sname, kind])
+            break
+    if viol:
+        viol["ops"] = [sname, tname]
+        viol["src"] = [f"chain: cut({sname}) then {tname}"]
+        rec["status"] = "violation"
+        rec["viol"] = viol
+        rec["case"] = {"chain": [sname, tname]}
+    return rec
+
+
 def run_case(case):
+    if "chain" in case:
+        return run_chain(case)
     prog = case["prog"] if "prog" in case else progcase.gen_prog(("C17",) + tuple(case["gen"]), profile=case.get("profile", "default"), exclude_tags=("cut",))
     counters, sets = {}, {"cut_node_kinds": []}
     rec = {"status": "ok", "counters": counters, "sets": sets, "nt": []}
